@@ -26,6 +26,8 @@ trait SignedInteger:
     fn from_i64(i: i64) -> Self;
 
     fn from_u32(u: u32) -> Self;
+
+    fn wrapping_add(self, rhs: Self) -> Self;
 }
 
 impl SignedInteger for i32 {
@@ -38,6 +40,11 @@ impl SignedInteger for i32 {
     fn from_u32(u: u32) -> i32 {
         u as i32
     }
+
+    #[inline(always)]
+    fn wrapping_add(self, rhs: i32) -> i32 {
+        i32::wrapping_add(self, rhs)
+    }
 }
 
 impl SignedInteger for i64 {
@@ -49,6 +56,11 @@ impl SignedInteger for i64 {
     #[inline(always)]
     fn from_u32(u: u32) -> i64 {
         u as i64
+    }
+
+    #[inline(always)]
+    fn wrapping_add(self, rhs: i64) -> i64 {
+        i64::wrapping_add(self, rhs)
     }
 }
 
@@ -1542,7 +1554,7 @@ fn read_subframes<R: BitRead>(
                     read_subframe(&mut reader, side_bps, side)?;
 
                     left.iter().zip(side.iter_mut()).for_each(|(left, side)| {
-                        *side = *left - *side;
+                        *side = left.wrapping_sub(*side);
                     });
                 }
                 None => {
@@ -1560,7 +1572,7 @@ fn read_subframes<R: BitRead>(
 
                     left.iter().zip(side_i64).zip(side.iter_mut()).for_each(
                         |((left, side_i64), side)| {
-                            *side = (*left as i64 - side_i64) as i32;
+                            *side = (*left as i64).wrapping_sub(side_i64) as i32;
                         },
                     );
                 }
@@ -1578,7 +1590,7 @@ fn read_subframes<R: BitRead>(
                     read_subframe(&mut reader, header.bits_per_sample.into(), right)?;
 
                     side.iter_mut().zip(right.iter()).for_each(|(side, right)| {
-                        *side += *right;
+                        *side = side.wrapping_add(*right);
                     });
                 }
                 None => {
@@ -1597,7 +1609,7 @@ fn read_subframes<R: BitRead>(
 
                     side.iter_mut().zip(side_i64).zip(right.iter()).for_each(
                         |((side, side_64), right)| {
-                            *side = (side_64 + *right as i64) as i32;
+                            *side = side_64.wrapping_add(*right as i64) as i32;
                         },
                     );
                 }
@@ -1616,9 +1628,9 @@ fn read_subframes<R: BitRead>(
                     read_subframe(&mut reader, side_bps, side)?;
 
                     mid.iter_mut().zip(side.iter_mut()).for_each(|(mid, side)| {
-                        let sum = *mid * 2 + side.abs() % 2;
-                        *mid = (sum + *side) >> 1;
-                        *side = (sum - *side) >> 1;
+                        let sum = mid.wrapping_mul(2).wrapping_add(side.wrapping_abs() % 2);
+                        *mid = sum.wrapping_add(*side) >> 1;
+                        *side = sum.wrapping_sub(*side) >> 1;
                     });
                 }
                 None => {
@@ -1636,9 +1648,9 @@ fn read_subframes<R: BitRead>(
 
                     mid.iter_mut().zip(side.iter_mut()).zip(side_i64).for_each(
                         |((mid, side), side_i64)| {
-                            let sum = *mid as i64 * 2 + (side_i64.abs() % 2);
-                            *mid = ((sum + side_i64) >> 1) as i32;
-                            *side = ((sum - side_i64) >> 1) as i32;
+                            let sum = (*mid as i64 * 2).wrapping_add(side_i64.wrapping_abs() % 2);
+                            *mid = (sum.wrapping_add(side_i64) >> 1) as i32;
+                            *side = (sum.wrapping_sub(side_i64) >> 1) as i32;
                         },
                     );
                 }
@@ -1759,15 +1771,15 @@ fn predict<I: SignedInteger>(coefficients: &[i64], qlp_shift: u32, channel: &mut
     for split in coefficients.len()..channel.len() {
         let (predicted, residuals) = channel.split_at_mut(split);
 
-        residuals[0] += I::from_i64(
+        residuals[0] = residuals[0].wrapping_add(I::from_i64(
             predicted
                 .iter()
                 .rev()
                 .zip(coefficients)
-                .map(|(x, y)| (*x).into() * y)
-                .sum::<i64>()
+                .map(|(x, y)| Into::<i64>::into(*x).wrapping_mul(*y))
+                .fold(0i64, i64::wrapping_add)
                 >> qlp_shift,
-        );
+        ));
     }
 }
 
